@@ -1,8 +1,10 @@
 package props
 
 import (
+	"context"
 	"errors"
 	"fmt"
+	"github.com/ajitpratap0/GoSQLX/pkg/gosqlx"
 	"math/rand"
 	"strings"
 
@@ -281,7 +283,8 @@ func c05Child(a *ChildArgs) {
 	case "lexerr":
 		// ill-formed lexemes at known positions: the tokenizer error must point at the lexeme's first character
 		bad := []struct{ name, text string }{{"unterminated-string", "'abc"}, {"unterminated-qident", "\"abc"}, {"unterminated-backtick", "`abc"}, {"unterminated-block-comment", "/* abc"},
-			{"unterminated-dollar", "$t$ abc"}, {"stray-char", "\x01"}, {"bad-escape", "'a\\qb'"}, {"unterminated-multiline-string", "'ab\ncd"}}
+			{"unterminated-dollar", "$t$ abc"}, {"stray-char", "\x01"}, {"bad-escape", "'a\\qb'"}, {"unterminated-multiline-string", "'ab\ncd"},
+			{"unterminated-qident-then-newline", "\"abc\nmore"}, {"dangling-backslash", "'abc\\"}, {"unterminated-triple", "'''abc"}}
 		base := a.Seed*7919 + int64(a.Shard)*104729
 		for i := 0; i < a.N/2; i++ {
 			r := rand.New(rand.NewSource(base + int64(i)*15485863))
@@ -305,6 +308,42 @@ func c05Child(a *ChildArgs) {
 			}
 			a.Rec.Count("evaluations", 1)
 			a.Rec.Distinct("texts", text)
+			all := linesOf(text)
+			// the same lexical error through every entry point that reports one: the location is that of the text as given
+			for epName, ep := range map[string]func(string) error{
+				"Tokenizer.Tokenize": func(s string) error { _, err := mustTokenizer().Tokenize([]byte(s)); return err },
+				"Tokenizer.TokenizeContext": func(s string) error {
+					_, err := mustTokenizer().TokenizeContext(context.Background(), []byte(s))
+					return err
+				},
+				"gosqlx.Parse":         func(s string) error { _, err := gosqlx.Parse(s); return err },
+				"gosqlx.Validate":      func(s string) error { return gosqlx.Validate(s) },
+				"parser.Validate":      func(s string) error { return parser.Validate(s) },
+				"parser.ValidateBytes": func(s string) error { return parser.ValidateBytes([]byte(s)) },
+				"parser.ParseBytes":    func(s string) error { _, err := parser.ParseBytes([]byte(s)); return err },
+				"gosqlx.ParseWithRecovery": func(s string) error {
+					_, errs := gosqlx.ParseWithRecovery(s)
+					if len(errs) > 0 {
+						return errs[0]
+					}
+					return nil
+				},
+			} {
+				if epName != "Tokenizer.Tokenize" {
+					err := ep(text)
+					var ge *goerrors.Error
+					if err == nil || !errors.As(err, &ge) || !strings.HasPrefix(string(ge.Code), "E1") || ge.Code == "E1006" {
+						continue
+					}
+					if ge.Location.Line == 0 && ge.Location.Column == 0 {
+						continue
+					}
+					if b.name == "bad-escape" {
+						continue
+					}
+					c05CheckLoc(a, "C05/lexerr-ep/"+epName+"/"+b.name, "ill-formed lexeme "+b.name+" via "+epName, ge.Location, wl, wc, all, map[string]string{"text": text, "entry_point": epName})
+				}
+			}
 			tk := mustTokenizer()
 			_, err := tk.Tokenize([]byte(text))
 			wit := map[string]string{"text": text}
@@ -320,7 +359,6 @@ func c05Child(a *ChildArgs) {
 				a.Rec.Viol(id+"/no-location", "the location carried by each tokenizer error identifies where the element begins", "tokenizer error without location: "+firstLine(err.Error()), wit)
 				continue
 			}
-			all := linesOf(text)
 			if b.name == "bad-escape" {
 				// the offending element is the escape inside the literal: anywhere inside the literal is accepted
 				if ge.Location.Line != wl || ge.Location.Column < 1 || (all[wl-1].plain && (ge.Location.Column < wc || ge.Location.Column > wc+len(b.text))) {
